@@ -73,6 +73,7 @@ class NexusFitter(object):
         if max_calls is None:
             max_calls = kc("core", "fitters", "nexus_fitter", "max_calls")
 
+        self._update_minimizer_parameter_values()
         self.__minimizing = True
         self._minimizer.minimize(max_calls=max_calls)
         self.__minimizing = False
@@ -83,6 +84,18 @@ class NexusFitter(object):
         self._fcn_wrapper(*_par_vals)
 
         self.__state_is_from_minimizer = True
+
+    def _update_minimizer_parameter_values(self, parameter_names=None):
+        """Hand the current values of the parameter nodes to the minimizer.
+        They differ if the nodes are shared with another fit which has changed them."""
+        if parameter_names is None:
+            parameter_names = self._fit_par_names
+        _minimizer_values = self._minimizer.parameter_values
+        for _pn in parameter_names:
+            _par_index = self._fit_par_names.index(_pn)  # raises ValueError for unknown names
+            _nexus_value = self._nx.get(_pn).value
+            if _nexus_value != _minimizer_values[_par_index]:
+                self._minimizer.set(_pn, _nexus_value)
 
     def _fcn_wrapper(self, *fit_par_value_list):
         # set fit parameter values
@@ -171,6 +184,8 @@ class NexusFitter(object):
     def fix_parameter(self, name, value=None):
         if value is not None:
             self.set_fit_parameter_values(**{name: value})
+        else:
+            self._update_minimizer_parameter_values([name])
 
         self._minimizer.fix(name)
         _fixed_par_dict = self.get_fit_parameter_values([name])
